@@ -180,6 +180,19 @@ func c07RESTBackend(c *Ctx, i int, r *rand.Rand, m *MethodInfo) {
 		msg = genMessage(r, m.In(), genOpts{density: pick(r, []int{5, 20})})
 		_, err := renderREST(b, msg, r, renderChoices{})
 		carriable = err == nil
+	} else if chance(r, 12) {
+		// a value that almost fits a multi-segment variable: no URL under the rule can carry it
+		for _, v := range b.Vars {
+			if leaf := v.Fields[len(v.Fields)-1]; leaf.Kind() == protoreflect.StringKind {
+				if nm, ok := nearMissForVar(r, b, v); ok {
+					setLeaf(msg.ProtoReflect(), v.Fields, protoreflect.ValueOfString(nm))
+					_, err := renderREST(b, msg, r, renderChoices{})
+					carriable = err == nil
+					c.Count("near-miss-path-value")
+					break
+				}
+			}
+		}
 	}
 	cfg := &SvcConfig{Protocols: []string{"rest"}, Codecs: pick(r, [][]string{{"json"}, {"proto"}, {"proto", "json"}}), Comps: pick(r, [][]string{{}, {"gzip"}})}
 	forms := []ClientForm{FConnectUnary, FGRPC, FGRPCWeb}
